@@ -6,6 +6,10 @@ SPEC = {
     'lean_modules': ['N2k.Props.Consts.C04', 'N2k.Props.C04'], 'props_files': ['N2k/Props/Consts/C04.lean', 'N2k/Props/C04.lean'],
     'translators': ['constants', 'pgn_tables'],
     'case_start': ['reset', 'reset0'],
+    # the whole-node traffic generator (requests, group functions, TP, claims, heartbeat) carries a C04 monitor as well
+    'extra': [{'engine': 'fuzz', 'harness': 'fuzz.cpp', 'no_model': True, 'variants': ['', 't32'], 'asan_options': ':redzone=1024',
+               'repo_srcs': ['N2kMsg.cpp', 'N2kStream.cpp', 'N2kMessages.cpp', 'N2kTimer.cpp', 'N2kGroupFunction.cpp',
+                             'N2kGroupFunctionDefaultHandlers.cpp', 'NMEA2000.cpp', 'N2kDeviceList.cpp']}],
     'trusted_base': ["model N2k/Model/Send.lean: Open() state machine (openStep), SendMsg gate (gate), IsAddressClaimStarted, "
                      "StartAddressClaim, tN2kScheduler in both the 32-bit and the 64-bit flavour (Basic/Time.lean), transcribed by hand",
                      "'transmitted' = the stream (driver-accepted ++ send queue) grows; frames queued before a claim window and "
